@@ -169,6 +169,16 @@ static LimitItem add_limit(Rng &r, Plan &plan, int which, int level, bool quick)
         plan.flags |= (static_cast<uint64_t>(level) + 1) << 8; // resolved in gen_case (needs a measuring run)
         break;
     }
+    case 14: {
+        // group descriptions (only a file can bring them: the API has no setter): 252 .. 255 characters, all within the format;
+        // loaded, then saved and restarted
+        int GL[] = {254, 255, 253, 252};
+        it.beyond = false;
+        plan.steps.push_back(loadStep("lim:1:" + tos(2 + r.below(3)) + ":2:" + tos(GL[level])));
+        it.tag = "gdesc255";
+        level = level == 1 ? 1 : 0;
+        break;
+    }
     case 12: {
         // two dimensions at their limit in ONE parameter: n strings of m characters (255 x 255 = 65025 bytes still fit the
         // 16-bit record length)
@@ -436,16 +446,16 @@ Case gen_case(const std::string &prop, const std::string &tier, uint64_t verif_s
         add_steering(r, plan, index);
     } else if (gp == "C17") {
         bool quick = !thorough;
-        int nItems = 14;
+        int nItems = 15;
         int which = static_cast<int>(index % static_cast<uint64_t>(nItems));
         int level = static_cast<int>((index / static_cast<uint64_t>(nItems)) % 4);
         uint64_t grp = index / (static_cast<uint64_t>(nItems) * 4); // every item at every level once per group
         if (quick && which == 8 && grp % 4 != 0) which = 0; // the 32767-frame objects are slow: fewer of them in quick
         LimitItem a = add_limit(r, plan, which, level, quick);
         plan.tag = a.tag;
-        bool shapeItem = which == 6 || which == 7 || which == 8 || which == 11;
+        bool shapeItem = which == 6 || which == 7 || which == 8 || which == 11 || which == 14;
         bool beyond = a.beyond;
-        if (grp % 2 == 1 && which != 8 && which != 10 && which != 11 && which != 12 && which != 13) { // pairs
+        if (grp % 2 == 1 && which != 8 && which != 10 && which != 11 && which != 12 && which != 13 && which != 14) { // pairs
             int w2 = static_cast<int>(r.below(10));
             if (w2 == 8 || (w2 >= 6 && which >= 6)) w2 = 0;
             if (w2 != which) { LimitItem b = add_limit(r, plan, w2, static_cast<int>(r.below(4)), quick); plan.tag += "&" + b.tag; beyond = beyond || b.beyond; if (w2 >= 6 && w2 <= 8) shapeItem = true; }
@@ -488,7 +498,7 @@ Case gen_case(const std::string &prop, const std::string &tier, uint64_t verif_s
                 pl.steps.push_back(st);
             }
             pl.flags &= 0xff;
-        } else if (!beyond && which != 8 && which != 11 && which != 12 && which != 13 && (grp / 2) % 3 == 1) {
+        } else if (!beyond && which != 8 && which != 11 && which != 12 && which != 13 && which != 14 && (grp / 2) % 3 == 1) {
             // the same content, its parameter section tuned to end just before / exactly on / just after a 512-byte block
             // boundary (the one place where "at the limit" meets the block structure): three parameters whose descriptions
             // (<= 255 each) take up the slack, sized after a measuring run
@@ -654,6 +664,19 @@ CaseResult run_case(const Case &c, volatile uint64_t *progress) {
                 std::string opn = k < c.plans[t].steps.size() ? op_name(c.plans[t].steps[k].op) : "?";
                 Violation v; v.prop = "C18"; v.key = "C18/solo-equivalence/" + opn; v.step = static_cast<int>(k);
                 v.detail = "thread " + tos(t) + " observed other results than when running alone, first at step " + tos(k) + " (" + opn + ")";
+                {   // what differs, as far as the step records and the final objects tell
+                    std::string why;
+                    if (k < again.recs.size() && k < rrs[t].recs.size()) {
+                        const StepRecord &a = again.recs[k], &b = rrs[t].recs[k];
+                        if (a.exc != b.exc) why += " exception alone '" + a.exc + "' / concurrent '" + b.exc + "';";
+                        if (a.threw != b.threw) why += " threw differs;";
+                        if (a.image_hash != b.image_hash) why += " saved image differs;";
+                        if (a.snap_hash != b.snap_hash) why += " object content differs;";
+                        if (a.aux != b.aux) why += " aux differs;";
+                    }
+                    if (again.has_object && rrs[t].has_object) { std::string fc, d = diff_snapshots(again.final_snap, rrs[t].final_snap, DiffOpts(), &fc); if (!d.empty()) why += " final objects: " + d.substr(0, 200); }
+                    v.detail += why;
+                }
                 res.viol.push_back(v);
             }
         }
